@@ -354,11 +354,37 @@ fn obs_tr(o: &Obs) -> Tr {
     }
 }
 /// poll until None (at most `budget` polls), then EXTRA_POLLS more
-fn drain<B>(body: B, budget: usize) -> (Vec<Obs>, bool)
+/// what one drain saw: is_end_stream() before the first poll, every poll result with the
+/// is_end_stream() answer right after it, and whether None was reached
+struct Drained {
+    init_es: bool,
+    obs: Vec<Obs>,
+    es: Vec<bool>,
+    ended: bool,
+}
+impl Drained {
+    fn tr(&self) -> Tr {
+        let mut v = vec![Tr::bool(self.init_es)];
+        for (o, e) in self.obs.iter().zip(self.es.iter()) {
+            v.push(Tr::L(vec![obs_tr(o), Tr::bool(*e)]));
+        }
+        Tr::L(v)
+    }
+}
+fn drain<B>(body: B, budget: usize) -> Drained
+where
+    B: HttpBody<Data = Bytes, Error = Status>,
+{
+    let d = drain0(body, budget);
+    d
+}
+fn drain0<B>(body: B, budget: usize) -> Drained
 where
     B: HttpBody<Data = Bytes, Error = Status>,
 {
     let mut body = Box::pin(body);
+    let init_es = body.is_end_stream();
+    let mut es: Vec<bool> = vec![];
     let w = noop_waker();
     let mut cx = Context::from_waker(&w);
     let mut out = vec![];
@@ -379,7 +405,8 @@ where
         match r {
             Err(p) => {
                 out.push(Obs::Panic(p));
-                return (out, ended);
+                es.push(false);
+                return Drained { init_es, obs: out, es, ended };
             }
             Ok(Poll::Pending) => out.push(Obs::Pending),
             Ok(Poll::Ready(None)) => {
@@ -395,8 +422,31 @@ where
                 },
             },
         }
+        es.push(body.is_end_stream());
     }
-    (out, ended)
+    Drained { init_es, obs: out, es, ended }
+}
+/// M3: a consumer (hyper) that stops polling as soon as is_end_stream() answers true must have
+/// received every DATA frame and the trailers / the error
+fn judge_end_stream(server: bool, d: &Drained) -> Option<String> {
+    let is_frame = |o: &Obs| matches!(o, Obs::Data(_) | Obs::Trailers(_) | Obs::Err(..));
+    let total = d.obs.iter().filter(|o| is_frame(o)).count();
+    if d.init_es && total > 0 {
+        return Some("is_end_stream() is true before the first poll of a body that has frames".into());
+    }
+    if let Some(i) = d.es.iter().position(|e| *e) {
+        let seen = d.obs[..=i].iter().filter(|o| is_frame(o)).count();
+        if seen != total {
+            return Some(format!(
+                "is_end_stream() turned true after poll {} with {} of {} frames delivered: a consumer that stops there loses the rest",
+                i, seen, total
+            ));
+        }
+        if !server {
+            return Some("is_end_stream() of a client request body turned true".into());
+        }
+    }
+    None
 }
 
 // ------------------------------------------------------------------ the property's direct checks
@@ -593,7 +643,7 @@ fn case_body(p: &mut Pend, out: &mut Out, kind: &str, server: bool, cfg: &Cfg, s
     let script = Script { evs: src.iter().cloned().collect() };
     let enc = RawEnc { bs: cfg.bs };
     let comp = cfg.comp.map(|e| e.tonic());
-    let (obs, ended) = if server {
+    let dr = if server {
         if cfg.override_disable {
             // SingleMessageCompressionOverride is not nameable from outside the crate: take the
             // value Response::disable_compression stores and let inference name the type
@@ -607,6 +657,7 @@ fn case_body(p: &mut Pend, out: &mut Out, kind: &str, server: bool, cfg: &Cfg, s
     } else {
         drain(EncodeBody::new_client(enc, script, comp, cfg.max), budget)
     };
+    let (obs, ended) = (dr.obs.clone(), dr.ended);
     let want = expect(cfg, src);
     let wire = data_of(&obs);
     let tbl = compress_table(cfg, src, &wire);
@@ -618,7 +669,7 @@ fn case_body(p: &mut Pend, out: &mut Out, kind: &str, server: bool, cfg: &Cfg, s
         coq_list(src, sev_coq),
         EXTRA_POLLS
     );
-    let oracle = judge_frames(server, &obs, ended, &want);
+    let oracle = judge_frames(server, &obs, ended, &want).or_else(|| judge_end_stream(server, &dr));
     let n_ok = src.iter().filter(|e| matches!(e, SEv::Ok(_))).count();
     let n_pend = src.iter().filter(|e| matches!(e, SEv::Pending)).count();
     out.hist("body.role", if server { "server" } else { "client" });
@@ -634,7 +685,7 @@ fn case_body(p: &mut Pend, out: &mut Out, kind: &str, server: bool, cfg: &Cfg, s
         kind: kind.to_string(),
         input: json!({"server": server, "cfg": cfg.json(), "src": src.iter().map(sev_json).collect::<Vec<_>>()}),
         model,
-        obs: Tr::L(obs.iter().map(obs_tr).collect()),
+        obs: dr.tr(),
         oracle,
         nontrivial: n_ok >= 2 || (n_ok >= 1 && want.code != 0),
         wire: Some((wire, cfg.comp, want.messages, Some(cfg.eff().is_some() as u8))),
@@ -653,7 +704,7 @@ fn bucket(n: usize) -> String {
 // ------------------------------------------------------------------ kind: request head (client::Grpc)
 #[derive(Clone, Default)]
 struct Capture {
-    got: Arc<Mutex<Option<(http::request::Parts, Vec<Obs>, bool)>>>,
+    got: Arc<Mutex<Option<(http::request::Parts, Drained)>>>,
     budget: usize,
 }
 impl tower_service::Service<http::Request<tonic::body::Body>> for Capture {
@@ -665,8 +716,8 @@ impl tower_service::Service<http::Request<tonic::body::Body>> for Capture {
     }
     fn call(&mut self, req: http::Request<tonic::body::Body>) -> Self::Future {
         let (parts, body) = req.into_parts();
-        let (obs, ended) = drain(body, self.budget);
-        *self.got.lock().unwrap() = Some((parts, obs, ended));
+        let d = drain(body, self.budget);
+        *self.got.lock().unwrap() = Some((parts, d));
         // a trailers-only OK answer
         let mut resp = http::Response::new(tonic::body::Body::empty());
         resp.headers_mut().insert("content-type", HeaderValue::from_static("application/grpc"));
@@ -715,6 +766,37 @@ fn version_n(v: http::Version) -> u32 {
 }
 fn md_of(md: &[(String, Vec<u8>)]) -> MetadataMap {
     StSpec { code: 0, msg: String::new(), details: vec![], md: md.to_vec() }.metadata()
+}
+/// The request target the property allows for this origin, computed from the origin STRING by
+/// hand (no http::Uri): the origin's path - the text between the authority and the first '?' -
+/// followed by the method path; an origin without a path, or whose PATH is exactly "/" (whatever
+/// its query), contributes nothing.  None = the origin is not of a form a request can be built from
+/// (authority form such as "localhost:50051").
+fn expected_target(origin: &Option<String>, path: &str) -> Option<String> {
+    let o = match origin {
+        None => return Some(path.to_string()), // Uri::default() = "/"
+        Some(o) => o.as_str(),
+    };
+    let pq: &str = if let Some(i) = o.find("://") {
+        let rest = &o[i + 3..];
+        match rest.find(|c| c == '/' || c == '?') {
+            Some(k) => &rest[k..],
+            None => "",
+        }
+    } else if o.starts_with('/') {
+        o
+    } else {
+        return None;
+    };
+    // the origin's query never matters (F-C03b); no path, or the path "/", is no prefix
+    let p = match pq.find('?') {
+        Some(k) => &pq[..k],
+        None => pq,
+    };
+    if p.is_empty() || p == "/" {
+        return Some(path.to_string());
+    }
+    Some(format!("{}{}", p, path))
 }
 fn case_request(p: &mut Pend, out: &mut Out, kind: &str, rc: &ReqCase) {
     // the model takes the enabled set in slot order (EnabledCompressionEncodings::enable ignores
@@ -792,39 +874,46 @@ fn case_request(p: &mut Pend, out: &mut Out, kind: &str, rc: &ReqCase) {
         rc.msgs.clone()
     };
     let src: Vec<SEv> = msgs.iter().cloned().map(SEv::Ok).collect();
+    // only for the oracle and the compress table: the model derives the body configuration itself
     let cfg = Cfg { comp: rc.send, override_disable: false, max: rc.max, bs: rc.bs };
     let want = expect(&cfg, &src);
     let captured = got.lock().unwrap().take();
     let mdh = md_of(&rc.md).into_headers();
-    let head_model = format!(
-        "obs_request_head {} {} {} {} {}",
+    let (bsz, thr) = rc.bs.unwrap_or((8192, 32768));
+    let wire_seen: Vec<u8> = captured.as_ref().map(|(_, d)| data_of(&d.obs)).unwrap_or_default();
+    let tbl = compress_table(&cfg, &src, &wire_seen);
+    let model = format!(
+        "obs_client_call {} (mkClient {} {} {} {} {} {}) {} {} {} {}",
+        coq_pairs(&tbl),
         uri_parts_coq(&origin),
         coq_opt(&rc.send, |e| e.coq().to_string()),
         coq_list(&rc.accept, |e| e.coq().to_string()),
+        coq_opt(&rc.max, |m| m.to_string()),
+        bsz,
+        thr,
         coq_hm(&mdh),
-        coq_bytes(path.as_str().as_bytes())
+        coq_bytes(path.as_str().as_bytes()),
+        coq_list(&src, sev_coq),
+        EXTRA_POLLS
     );
-    let (obs, oracle, wire, model) = match (res, captured) {
-        (Err(pn), _) => {
-            // a panic is only expected (and modelled) for an origin http::Uri::from_parts refuses
-            let op = origin.clone().into_parts();
-            let refused = op.scheme.is_some() != op.authority.is_some();
-            (
-                Tr::L(vec![Tr::L(vec![Tr::n(99u8)])]),
-                if refused { None } else { Some(format!("panic preparing the request: {}", pn)) },
-                None,
-                format!("Nd [{}]", head_model),
-            )
-        }
-        (Ok(Err(())), _) => (Tr::L(vec![Tr::n(98u8)]), Some("the call hangs".into()), None, format!("Nd [{}]", head_model)),
-        (Ok(Ok(())), None) => (Tr::L(vec![Tr::n(97u8)]), Some("no request was sent".into()), None, format!("Nd [{}]", head_model)),
-        (Ok(Ok(())), Some((parts, body_obs, ended))) => {
-            let mut why = judge_request_head(&parts, &origin, &path, rc.send);
+    let target = expected_target(&rc.origin, path.as_str());
+    let (obs, oracle, wire) = match (res, captured) {
+        (Err(pn), _) => (
+            Tr::L(vec![Tr::L(vec![Tr::n(99u8)])]),
+            // a panic is only acceptable for an origin no request target can be built from
+            if target.is_none() { None } else { Some(format!("panic preparing the request: {}", pn)) },
+            None,
+        ),
+        (Ok(Err(())), _) => (Tr::L(vec![Tr::n(98u8)]), Some("the call hangs".into()), None),
+        (Ok(Ok(())), None) => (Tr::L(vec![Tr::n(97u8)]), Some("no request was sent".into()), None),
+        (Ok(Ok(())), Some((parts, d))) => {
+            let mut why = judge_request_head(&parts, &origin, &target, rc.send);
             if why.is_none() {
-                why = judge_frames(false, &body_obs, ended, &want);
+                why = judge_frames(false, &d.obs, d.ended, &want);
             }
-            let wire = data_of(&body_obs);
-            let tbl = compress_table(&cfg, &src, &wire);
+            if why.is_none() {
+                why = judge_end_stream(false, &d);
+            }
             let head = Tr::L(vec![
                 Tr::n(1u8),
                 Tr::s(parts.method.as_str()),
@@ -832,20 +921,11 @@ fn case_request(p: &mut Pend, out: &mut Out, kind: &str, rc: &ReqCase) {
                 uri_tr(&parts.uri),
                 hm_tr(&parts.headers),
             ]);
-            let model = format!(
-                "Nd [{}; obs_encode {} {} Client {} {}]",
-                head_model,
-                coq_pairs(&tbl),
-                cfg.coq(),
-                coq_list(&src, sev_coq),
-                EXTRA_POLLS
-            );
             let announced = parts.headers.get("grpc-encoding").and_then(|v| v.to_str().ok()).and_then(Enc::from_name);
             (
-                Tr::L(vec![head, Tr::L(body_obs.iter().map(obs_tr).collect())]),
+                Tr::L(vec![head, d.tr()]),
                 why,
-                Some((wire, announced, want.messages.clone(), Some(rc.send.is_some() as u8))),
-                model,
+                Some((data_of(&d.obs), announced, want.messages.clone(), Some(rc.send.is_some() as u8))),
             )
         }
     };
@@ -867,7 +947,7 @@ fn case_request(p: &mut Pend, out: &mut Out, kind: &str, rc: &ReqCase) {
     });
 }
 /// "an HTTP/2 POST to the method's path with content-type application/grpc and te: trailers"
-fn judge_request_head(parts: &http::request::Parts, origin: &http::Uri, path: &http::uri::PathAndQuery, send: Option<Enc>) -> Option<String> {
+fn judge_request_head(parts: &http::request::Parts, origin: &http::Uri, target: &Option<String>, send: Option<Enc>) -> Option<String> {
     if parts.method != http::Method::POST {
         return Some(format!("method {}", parts.method));
     }
@@ -875,16 +955,10 @@ fn judge_request_head(parts: &http::request::Parts, origin: &http::Uri, path: &h
         return Some(format!("version {:?}", parts.version));
     }
     let pq = parts.uri.path_and_query().map(|p| p.as_str()).unwrap_or("");
-    if !pq.ends_with(path.as_str()) {
-        return Some(format!("request target {:?} does not end with the method path {:?}", pq, path.as_str()));
-    }
-    let op = origin.clone().into_parts();
-    let prefix_free = match &op.path_and_query {
-        None => true,
-        Some(p) => p.as_str() == "/",
-    };
-    if prefix_free && pq != path.as_str() {
-        return Some(format!("request target {:?} is not the method path {:?}", pq, path.as_str()));
+    match target {
+        None => return Some(format!("a request ({:?}) was sent for an origin without scheme", pq)),
+        Some(t) if t != pq => return Some(format!("request target {:?}, expected exactly {:?} (origin path ++ method path)", pq, t)),
+        _ => {}
     }
     if parts.uri.scheme() != origin.scheme() || parts.uri.authority() != origin.authority() {
         return Some("scheme / authority differ from the origin".into());
@@ -917,18 +991,51 @@ fn judge_request_head(parts: &http::request::Parts, origin: &http::Uri, path: &h
 // ------------------------------------------------------------------ kind: response head (server::Grpc)
 #[derive(Clone, Debug)]
 enum Handler {
-    /// unary-like: Ok(metadata, message, disable_compression) or Err
+    /// one-message response (unary, client_streaming): Ok(metadata, message, disable_compression) or Err
     Unary(Result<(Vec<(String, Vec<u8>)>, Vec<u8>, bool), StSpec>),
-    /// stream-like: Ok(metadata, scripted stream) or Err
-    Stream(Result<(Vec<(String, Vec<u8>)>, Vec<SEv>), StSpec>),
+    /// stream response (server_streaming, streaming): Ok(metadata, scripted stream, disable_compression) or Err
+    Stream(Result<(Vec<(String, Vec<u8>)>, Vec<SEv>, bool), StSpec>),
 }
 #[derive(Clone, Debug)]
 struct RespCase {
     handler: Handler,
+    /// the request arrives as a stream (client_streaming / streaming) instead of one message
+    req_stream: bool,
     send: Vec<Enc>,
+    accept: Vec<Enc>,
     accept_header: Option<String>,
+    /// grpc-encoding of the request
+    req_encoding: Option<String>,
+    /// the request body carries a message
+    has_msg: bool,
     max: Option<usize>,
     bs: Option<(usize, usize)>,
+}
+fn unary_answer(h: &Result<(Vec<(String, Vec<u8>)>, Vec<u8>, bool), StSpec>) -> Result<tonic::Response<Vec<u8>>, Status> {
+    match h {
+        Err(s) => Err(s.status()),
+        Ok((md, m, disable)) => {
+            let mut r = tonic::Response::new(m.clone());
+            *r.metadata_mut() = md_of(md);
+            if *disable {
+                r.disable_compression();
+            }
+            Ok(r)
+        }
+    }
+}
+fn stream_answer(h: &Result<(Vec<(String, Vec<u8>)>, Vec<SEv>, bool), StSpec>) -> Result<tonic::Response<Script>, Status> {
+    match h {
+        Err(s) => Err(s.status()),
+        Ok((md, evs, disable)) => {
+            let mut r = tonic::Response::new(Script { evs: evs.iter().cloned().collect() });
+            *r.metadata_mut() = md_of(md);
+            if *disable {
+                r.disable_compression();
+            }
+            Ok(r)
+        }
+    }
 }
 #[derive(Clone)]
 struct UnarySvc(Result<(Vec<(String, Vec<u8>)>, Vec<u8>, bool), StSpec>);
@@ -940,21 +1047,22 @@ impl tower_service::Service<tonic::Request<Vec<u8>>> for UnarySvc {
         Poll::Ready(Ok(()))
     }
     fn call(&mut self, _: tonic::Request<Vec<u8>>) -> Self::Future {
-        std::future::ready(match &self.0 {
-            Err(s) => Err(s.status()),
-            Ok((md, m, disable)) => {
-                let mut r = tonic::Response::new(m.clone());
-                *r.metadata_mut() = md_of(md);
-                if *disable {
-                    r.disable_compression();
-                }
-                Ok(r)
-            }
-        })
+        std::future::ready(unary_answer(&self.0))
+    }
+}
+impl tower_service::Service<tonic::Request<tonic::Streaming<Vec<u8>>>> for UnarySvc {
+    type Response = tonic::Response<Vec<u8>>;
+    type Error = Status;
+    type Future = std::future::Ready<Result<Self::Response, Status>>;
+    fn poll_ready(&mut self, _: &mut Context<'_>) -> Poll<Result<(), Status>> {
+        Poll::Ready(Ok(()))
+    }
+    fn call(&mut self, _: tonic::Request<tonic::Streaming<Vec<u8>>>) -> Self::Future {
+        std::future::ready(unary_answer(&self.0))
     }
 }
 #[derive(Clone)]
-struct StreamSvc(Result<(Vec<(String, Vec<u8>)>, Vec<SEv>), StSpec>);
+struct StreamSvc(Result<(Vec<(String, Vec<u8>)>, Vec<SEv>, bool), StSpec>);
 impl tower_service::Service<tonic::Request<Vec<u8>>> for StreamSvc {
     type Response = tonic::Response<Script>;
     type Error = Status;
@@ -963,14 +1071,18 @@ impl tower_service::Service<tonic::Request<Vec<u8>>> for StreamSvc {
         Poll::Ready(Ok(()))
     }
     fn call(&mut self, _: tonic::Request<Vec<u8>>) -> Self::Future {
-        std::future::ready(match &self.0 {
-            Err(s) => Err(s.status()),
-            Ok((md, evs)) => {
-                let mut r = tonic::Response::new(Script { evs: evs.iter().cloned().collect() });
-                *r.metadata_mut() = md_of(md);
-                Ok(r)
-            }
-        })
+        std::future::ready(stream_answer(&self.0))
+    }
+}
+impl tower_service::Service<tonic::Request<tonic::Streaming<Vec<u8>>>> for StreamSvc {
+    type Response = tonic::Response<Script>;
+    type Error = Status;
+    type Future = std::future::Ready<Result<Self::Response, Status>>;
+    fn poll_ready(&mut self, _: &mut Context<'_>) -> Poll<Result<(), Status>> {
+        Poll::Ready(Ok(()))
+    }
+    fn call(&mut self, _: tonic::Request<tonic::Streaming<Vec<u8>>>) -> Self::Future {
+        std::future::ready(stream_answer(&self.0))
     }
 }
 fn raw_frame(flag: u8, p: &[u8]) -> Vec<u8> {
@@ -979,13 +1091,24 @@ fn raw_frame(flag: u8, p: &[u8]) -> Vec<u8> {
     v.extend_from_slice(p);
     v
 }
-/// first token of the accept header that the server may send (what the server is specified to pick)
+/// first token of the accept header that the server may send (what the server is specified to
+/// pick) - used by the ORACLE only; the model negotiates itself (Model/Encoder.v server_call)
 fn chosen_encoding(send: &[Enc], header: &Option<String>) -> Option<Enc> {
     let h = header.as_ref()?;
     h.split(',').map(|t| t.trim()).filter_map(Enc::from_name).find(|e| send.contains(e))
 }
+fn dedup(v: &[Enc]) -> Vec<Enc> {
+    let mut o = vec![];
+    for e in v {
+        if !o.contains(e) {
+            o.push(*e);
+        }
+    }
+    o
+}
 fn case_response(p: &mut Pend, out: &mut Out, kind: &str, rc: &RespCase) {
-    let mut req = http::Request::new(ScriptBody::<Status>::new(vec![Ev::Data(raw_frame(0, b"req"))]).0);
+    let evs = if rc.has_msg { vec![Ev::Data(raw_frame(0, b"req"))] } else { vec![] };
+    let mut req = http::Request::new(ScriptBody::<Status>::new(evs).0);
     *req.method_mut() = http::Method::POST;
     *req.version_mut() = http::Version::HTTP_2;
     *req.uri_mut() = "/pkg.Svc/Method".parse().unwrap();
@@ -994,46 +1117,102 @@ fn case_response(p: &mut Pend, out: &mut Out, kind: &str, rc: &RespCase) {
     if let Some(h) = &rc.accept_header {
         req.headers_mut().insert("grpc-accept-encoding", HeaderValue::from_str(h).unwrap());
     }
+    if let Some(h) = &rc.req_encoding {
+        req.headers_mut().insert("grpc-encoding", HeaderValue::from_str(h).unwrap());
+    }
+    let req_headers = req.headers().clone();
     let rcc = rc.clone();
     let res = catch(std::panic::AssertUnwindSafe(move || {
         let mut g = tonic::server::Grpc::new(RawCodec { bs: rcc.bs });
         for e in &rcc.send {
             g = g.send_compressed(e.tonic());
         }
+        for e in &rcc.accept {
+            g = g.accept_compressed(e.tonic());
+        }
         if let Some(m) = rcc.max {
             g = g.max_encoding_message_size(m);
         }
         spin(
             async move {
-                match rcc.handler {
-                    Handler::Unary(h) => g.unary(UnarySvc(h), req).await,
-                    Handler::Stream(h) => g.server_streaming(StreamSvc(h), req).await,
+                match (rcc.handler, rcc.req_stream) {
+                    (Handler::Unary(h), false) => g.unary(UnarySvc(h), req).await,
+                    (Handler::Unary(h), true) => g.client_streaming(UnarySvc(h), req).await,
+                    (Handler::Stream(h), false) => g.server_streaming(StreamSvc(h), req).await,
+                    (Handler::Stream(h), true) => g.streaming(StreamSvc(h), req).await,
                 }
             },
             10_000,
         )
     }));
+    // ---- what the property demands, computed without the model
     let chosen = chosen_encoding(&rc.send, &rc.accept_header);
-    // what the model is asked
-    let (resp_coq, src, disable, is_err, err_code): (String, Vec<SEv>, bool, bool, u32) = match &rc.handler {
-        Handler::Unary(Ok((md, m, d))) => (format!("(inl {})", coq_hm(&md_of(md).into_headers())), vec![SEv::Ok(m.clone())], *d, false, 0),
-        Handler::Stream(Ok((md, evs))) => (format!("(inl {})", coq_hm(&md_of(md).into_headers())), evs.clone(), false, false, 0),
-        Handler::Unary(Err(s)) | Handler::Stream(Err(s)) => (format!("(inr {})", s.coq()), vec![], false, true, s.code),
+    let rejected_encoding = match rc.req_encoding.as_deref() {
+        None | Some("identity") => false,
+        Some(n) => !Enc::from_name(n).map(|e| rc.accept.contains(&e)).unwrap_or(false),
+    };
+    let missing = !rc.req_stream && !rc.has_msg;
+    let (src, disable, handler_err): (Vec<SEv>, bool, Option<u32>) = match &rc.handler {
+        Handler::Unary(Ok((_, m, d))) => (vec![SEv::Ok(m.clone())], *d, None),
+        // the override is only read for one-message responses
+        Handler::Stream(Ok((_, evs, _))) => (evs.clone(), false, None),
+        Handler::Unary(Err(s)) | Handler::Stream(Err(s)) => (vec![], false, Some(s.code)),
+    };
+    let err_code: Option<u32> = if rejected_encoding {
+        Some(12)
+    } else if missing {
+        Some(13)
+    } else {
+        handler_err
     };
     let cfg = Cfg { comp: chosen, override_disable: disable, max: rc.max, bs: rc.bs };
-    let head_model = format!("obs_response_head {} {}", resp_coq, coq_opt(&chosen, |e| e.coq().to_string()));
-    let (obs, oracle, wire, model) = match res {
-        Err(pn) => (Tr::L(vec![Tr::L(vec![Tr::n(99u8)])]), Some(format!("panic producing the response: {}", pn)), None, format!("Nd [{}]", head_model)),
-        Ok(Err(())) => (Tr::L(vec![Tr::n(98u8)]), Some("the handler call hangs".into()), None, format!("Nd [{}]", head_model)),
+    // ---- what the model is asked: the server, the shape, the request headers, the handler's answer
+    let shape = match (&rc.handler, rc.req_stream) {
+        (Handler::Unary(_), false) => "ShUnary",
+        (Handler::Unary(_), true) => "ShClientStreaming",
+        (Handler::Stream(_), false) => "ShServerStreaming",
+        (Handler::Stream(_), true) => "ShStreaming",
+    };
+    let handler_coq = match &rc.handler {
+        Handler::Unary(Ok((md, _, d))) => format!("(HOk {} {})", coq_hm(&md_of(md).into_headers()), coq_bool(*d)),
+        Handler::Stream(Ok((md, _, d))) => format!("(HOk {} {})", coq_hm(&md_of(md).into_headers()), coq_bool(*d)),
+        Handler::Unary(Err(s)) | Handler::Stream(Err(s)) => format!("(HErr {})", s.coq()),
+    };
+    let (bsz, thr) = rc.bs.unwrap_or((8192, 32768));
+    let (dr_opt, parts_opt, fail): (Option<Drained>, Option<http::response::Parts>, Option<(Tr, String)>) = match res {
+        Err(pn) => (None, None, Some((Tr::L(vec![Tr::L(vec![Tr::n(99u8)])]), format!("panic producing the response: {}", pn)))),
+        Ok(Err(())) => (None, None, Some((Tr::L(vec![Tr::n(98u8)]), "the handler call hangs".into()))),
         Ok(Ok(resp)) => {
             let (parts, body) = resp.into_parts();
-            let has_body = !HttpBody::is_end_stream(&body);
-            let (body_obs, ended) = drain(body, src.len() + 3);
+            (Some((HttpBody::is_end_stream(&body), drain(body, src.len() + 3))).map(|(_, d)| d), Some(parts), None)
+        }
+    };
+    let wire_seen: Vec<u8> = dr_opt.as_ref().map(|d| data_of(&d.obs)).unwrap_or_default();
+    let tbl = if err_code.is_none() { compress_table(&cfg, &src, &wire_seen) } else { vec![] };
+    let model = format!(
+        "obs_server_call {} (mkServer {} {} {} {} {}) {} {} {} {} {} {}",
+        coq_pairs(&tbl),
+        coq_list(&dedup(&rc.send), |e| e.coq().to_string()),
+        coq_list(&dedup(&rc.accept), |e| e.coq().to_string()),
+        coq_opt(&rc.max, |m| m.to_string()),
+        bsz,
+        thr,
+        shape,
+        coq_hm(&req_headers),
+        coq_bool(rc.has_msg),
+        handler_coq,
+        coq_list(&src, sev_coq),
+        EXTRA_POLLS
+    );
+    let (obs, oracle, wire) = match (fail, parts_opt, dr_opt) {
+        (Some((t, w)), _, _) => (t, Some(w), None),
+        (None, Some(parts), Some(d)) => {
+            let has_body = !d.init_es;
             let head = Tr::L(vec![
                 Tr::n(1u8),
                 Tr::n(parts.status.as_u16()),
                 Tr::n(version_n(parts.version)),
-                hm_tr(&parts.headers),
+                hm_tr(&canon_trailers(&parts.headers)),
                 Tr::bool(has_body),
             ]);
             let mut why = None;
@@ -1046,73 +1225,327 @@ fn case_response(p: &mut Pend, out: &mut Out, kind: &str, rc: &RespCase) {
             }
             let n_status = parts.headers.get_all("grpc-status").iter().count();
             let wire;
-            let model;
-            if is_err {
+            if let Some(code) = err_code {
                 // trailers-only: the status is in the headers, the body has no frame at all
                 if why.is_none() && n_status != 1 {
                     why = Some(format!("{} grpc-status headers in a trailers-only response", n_status));
                 }
-                if why.is_none() && parts.headers.get("grpc-status").map(|v| v.as_bytes().to_vec()) != Some(err_code.to_string().into_bytes()) {
-                    why = Some("trailers-only response carries the wrong grpc-status".into());
+                if why.is_none() && parts.headers.get("grpc-status").map(|v| v.as_bytes().to_vec()) != Some(code.to_string().into_bytes()) {
+                    why = Some(format!("trailers-only response carries grpc-status {:?}, expected {}", parts.headers.get("grpc-status"), code));
                 }
-                if why.is_none() && body_obs.iter().any(|o| !matches!(o, Obs::None)) {
+                if why.is_none() && d.obs.iter().any(|o| !matches!(o, Obs::None)) {
                     why = Some("trailers-only response has a body".into());
                 }
-                wire = None;
-                model = format!(
-                    "Nd [{}; Nd {}]",
-                    head_model,
-                    coq_list(&body_obs, |_| "Nd [Nn 1]".to_string())
-                );
-                if body_obs.len() != 1 + EXTRA_POLLS && why.is_none() {
-                    why = Some("empty body did not answer None to every poll".into());
+                if why.is_none() && (d.obs.len() != 1 + EXTRA_POLLS || !d.init_es) {
+                    why = Some("empty body did not answer None to every poll / is not ended from the start".into());
                 }
+                wire = None;
             } else {
                 if why.is_none() && n_status != 0 {
                     why = Some("grpc-status in the headers of a response that also has trailers".into());
                 }
                 let want = expect(&cfg, &src);
                 if why.is_none() {
-                    why = judge_frames(true, &body_obs, ended, &want);
+                    why = judge_frames(true, &d.obs, d.ended, &want);
                 }
-                let w = data_of(&body_obs);
-                let tbl = compress_table(&cfg, &src, &w);
+                if why.is_none() {
+                    why = judge_end_stream(true, &d);
+                }
                 let announced = parts.headers.get("grpc-encoding").and_then(|v| v.to_str().ok()).and_then(Enc::from_name);
                 // (a handler may put its own grpc-encoding into the response metadata: that name is not
                 // reserved; the judge then only insists that flag-0 messages are not compressed)
                 if why.is_none() && chosen.is_some() && announced != chosen {
                     why = Some(format!("grpc-encoding {:?} announced, {:?} negotiated", announced.map(|e| e.name()), chosen.map(|e| e.name())));
                 }
-                model = format!(
-                    "Nd [{}; obs_encode {} {} Server {} {}]",
-                    head_model,
-                    coq_pairs(&tbl),
-                    cfg.coq(),
-                    coq_list(&src, sev_coq),
-                    EXTRA_POLLS
-                );
-                wire = Some((w, announced, want.messages.clone(), Some(cfg.eff().is_some() as u8)));
+                wire = Some((data_of(&d.obs), announced, want.messages.clone(), Some(cfg.eff().is_some() as u8)));
             }
-            (Tr::L(vec![head, Tr::L(body_obs.iter().map(obs_tr).collect())]), why, wire, model)
+            (Tr::L(vec![head, d.tr()]), why, wire)
         }
+        _ => unreachable!(),
     };
-    out.hist("response.handler", match &rc.handler {
-        Handler::Unary(Ok(_)) => "unary ok",
-        Handler::Unary(Err(_)) => "unary err",
-        Handler::Stream(Ok(_)) => "stream ok",
-        Handler::Stream(Err(_)) => "stream err",
+    out.hist("response.shape", shape);
+    out.hist("response.outcome", match (rejected_encoding, missing, handler_err) {
+        (true, _, _) => "request encoding rejected".to_string(),
+        (_, true, _) => "missing request message".to_string(),
+        (_, _, Some(_)) => "handler error".to_string(),
+        _ => "ok".to_string(),
     });
     out.hist("response.encoding", chosen.map(|e| e.name()).unwrap_or("identity"));
+    let mdj = |md: &Vec<(String, Vec<u8>)>| md.iter().map(|(k, v)| json!([k, hex(v)])).collect::<Vec<_>>();
     let input = json!({
-        "send": rc.send.iter().map(|e| e.name()).collect::<Vec<_>>(), "accept_header": rc.accept_header,
-        "max": rc.max, "bs": rc.bs.map(|(a, b)| json!([a, b])),
+        "send": rc.send.iter().map(|e| e.name()).collect::<Vec<_>>(),
+        "accept": rc.accept.iter().map(|e| e.name()).collect::<Vec<_>>(),
+        "accept_header": rc.accept_header, "req_encoding": rc.req_encoding, "has_msg": rc.has_msg,
+        "req_stream": rc.req_stream, "max": rc.max, "bs": rc.bs.map(|(a, b)| json!([a, b])),
         "handler": match &rc.handler {
-            Handler::Unary(Ok((md, m, d))) => json!({"unary_ok": {"md": md.iter().map(|(k, v)| json!([k, hex(v)])).collect::<Vec<_>>(), "msg": msg_json(m), "disable": d}}),
+            Handler::Unary(Ok((md, m, d))) => json!({"unary_ok": {"md": mdj(md), "msg": msg_json(m), "disable": d}}),
             Handler::Unary(Err(s)) => json!({"unary_err": s.json()}),
-            Handler::Stream(Ok((md, evs))) => json!({"stream_ok": {"md": md.iter().map(|(k, v)| json!([k, hex(v)])).collect::<Vec<_>>(), "src": evs.iter().map(sev_json).collect::<Vec<_>>()}}),
+            Handler::Stream(Ok((md, evs, d))) => json!({"stream_ok": {"md": mdj(md), "src": evs.iter().map(sev_json).collect::<Vec<_>>(), "disable": d}}),
             Handler::Stream(Err(s)) => json!({"stream_err": s.json()}),
         }});
     p.cases.push(PCase { kind: kind.to_string(), input, model, obs, oracle, nontrivial: true, wire });
+}
+
+// ------------------------------------------------------------------ kind: channel (AddOrigin + UserAgent + hyper)
+/// A real `tonic::transport::Channel` (Endpoint::connect_with_connector_lazy) over an in-memory
+/// duplex pipe; the peer is a bare `h2` server - not tonic - that records what arrives.
+#[derive(Clone, Debug)]
+struct ChanCase {
+    endpoint: String,
+    origin_override: Option<String>,
+    custom_ua: Option<String>,
+    req: ReqCase, // origin field = the origin given to client::Grpc (None = Grpc::new)
+}
+#[derive(Clone)]
+struct DuplexConnector(Arc<Mutex<Option<tokio::io::DuplexStream>>>);
+impl tower_service::Service<http::Uri> for DuplexConnector {
+    type Response = hyper_util::rt::TokioIo<tokio::io::DuplexStream>;
+    type Error = std::io::Error;
+    type Future = std::future::Ready<Result<Self::Response, std::io::Error>>;
+    fn poll_ready(&mut self, _: &mut Context<'_>) -> Poll<Result<(), std::io::Error>> {
+        Poll::Ready(Ok(()))
+    }
+    fn call(&mut self, _: http::Uri) -> Self::Future {
+        std::future::ready(
+            self.0.lock().unwrap().take().map(hyper_util::rt::TokioIo::new).ok_or_else(|| std::io::Error::new(std::io::ErrorKind::Other, "second connect")),
+        )
+    }
+}
+struct Seen {
+    parts: http::request::Parts,
+    data: Vec<u8>,
+    trailers: bool,
+}
+async fn h2_peer(io: tokio::io::DuplexStream) -> Result<Seen, String> {
+    let mut conn = h2::server::handshake(io).await.map_err(|e| format!("h2 handshake: {}", e))?;
+    let (req, mut respond) = match conn.accept().await {
+        Some(Ok(x)) => x,
+        Some(Err(e)) => return Err(format!("h2 accept: {}", e)),
+        None => return Err("connection closed before a request".into()),
+    };
+    // keep the connection's IO moving while the body is read
+    let driver = tokio::spawn(async move { while let Some(Ok(_)) = conn.accept().await {} });
+    let (parts, mut body) = req.into_parts();
+    let mut data = vec![];
+    while let Some(chunk) = body.data().await {
+        let c = chunk.map_err(|e| format!("request body: {}", e))?;
+        let _ = body.flow_control().release_capacity(c.len());
+        data.extend_from_slice(&c);
+    }
+    let trailers = body.trailers().await.map_err(|e| format!("request trailers: {}", e))?.is_some();
+    let mut resp = http::Response::new(());
+    resp.headers_mut().insert("content-type", HeaderValue::from_static("application/grpc"));
+    resp.headers_mut().insert("grpc-status", HeaderValue::from_static("0"));
+    let _ = respond.send_response(resp, true);
+    tokio::task::yield_now().await;
+    driver.abort();
+    Ok(Seen { parts, data, trailers })
+}
+/// tonic's version from its manifest (not from the compiled constant)
+fn tonic_version() -> String {
+    let m = std::fs::read_to_string(format!("{}/tonic/Cargo.toml", std::env::var("VERIF_REPO").unwrap_or("/repo".into()))).unwrap_or_default();
+    for l in m.lines() {
+        if let Some(r) = l.strip_prefix("version = \"") {
+            return r.trim_end_matches('"').to_string();
+        }
+    }
+    "?".into()
+}
+fn case_channel(p: &mut Pend, out: &mut Out, kind: &str, cc: &ChanCase) {
+    let rc = &cc.req;
+    let grpc_origin: http::Uri = match &rc.origin {
+        None => http::Uri::default(),
+        Some(s) => match s.parse() {
+            Ok(u) => u,
+            Err(_) => return,
+        },
+    };
+    let path: http::uri::PathAndQuery = rc.path.parse().unwrap();
+    let ep_uri: http::Uri = cc.endpoint.parse().unwrap();
+    let ov: Option<http::Uri> = cc.origin_override.as_ref().map(|s| s.parse().unwrap());
+    let layer_origin = ov.clone().unwrap_or(ep_uri.clone());
+    let msgs: Vec<Vec<u8>> = if rc.shape == 0 { vec![rc.msgs.first().cloned().unwrap_or_default()] } else { rc.msgs.clone() };
+    let src: Vec<SEv> = msgs.iter().cloned().map(SEv::Ok).collect();
+    let cfg = Cfg { comp: rc.send, override_disable: false, max: rc.max, bs: rc.bs };
+    let want = expect(&cfg, &src);
+    let rt = tokio::runtime::Builder::new_current_thread().enable_time().build().unwrap();
+    let ccc = cc.clone();
+    let msgs2 = msgs.clone();
+    let res = catch(std::panic::AssertUnwindSafe(move || {
+        rt.block_on(async move {
+            let (c, s) = tokio::io::duplex(1 << 16);
+            let peer = tokio::spawn(h2_peer(s));
+            let mut ep = tonic::transport::Endpoint::from_shared(ccc.endpoint.clone()).map_err(|e| format!("endpoint: {}", e))?;
+            if let Some(ua) = &ccc.custom_ua {
+                ep = ep.user_agent(ua.clone()).map_err(|e| format!("user agent: {}", e))?;
+            }
+            if let Some(o) = &ccc.origin_override {
+                ep = ep.origin(o.parse().unwrap());
+            }
+            let ch = ep.connect_with_connector_lazy(DuplexConnector(Arc::new(Mutex::new(Some(c)))));
+            let rcc = &ccc.req;
+            let mut g = match &rcc.origin {
+                None => tonic::client::Grpc::new(ch),
+                Some(o) => tonic::client::Grpc::with_origin(ch, o.parse().unwrap()),
+            };
+            if let Some(e) = rcc.send {
+                g = g.send_compressed(e.tonic());
+            }
+            for e in &rcc.accept {
+                g = g.accept_compressed(e.tonic());
+            }
+            if let Some(m) = rcc.max {
+                g = g.max_encoding_message_size(m);
+            }
+            let codec = RawCodec { bs: rcc.bs };
+            let md = md_of(&rcc.md);
+            let pth: http::uri::PathAndQuery = rcc.path.parse().unwrap();
+            let call = async {
+                g.ready().await.map_err(|e| format!("not ready: {}", e))?;
+                if rcc.shape == 0 {
+                    let mut r = tonic::Request::new(msgs2[0].clone());
+                    *r.metadata_mut() = md;
+                    let _ = g.unary(r, pth, codec).await;
+                } else {
+                    let mut r = tonic::Request::new(tokio_stream::iter(msgs2.clone()));
+                    *r.metadata_mut() = md;
+                    let _ = g.client_streaming(r, pth, codec).await;
+                }
+                Ok::<(), String>(())
+            };
+            let called = tokio::time::timeout(std::time::Duration::from_secs(20), call).await;
+            match called {
+                Err(_) => return Err("the call hangs".to_string()),
+                Ok(Err(e)) => return Err(e),
+                Ok(Ok(())) => {}
+            }
+            match tokio::time::timeout(std::time::Duration::from_secs(20), peer).await {
+                Err(_) => Err("the peer saw no complete request".to_string()),
+                Ok(Err(e)) => Err(format!("peer task: {}", e)),
+                Ok(Ok(r)) => r,
+            }
+        })
+    }));
+    let tonic_ua = format!("tonic/{}", tonic_version());
+    let mdh = md_of(&rc.md).into_headers();
+    let (bsz, thr) = rc.bs.unwrap_or((8192, 32768));
+    let wire_seen: Vec<u8> = match &res {
+        Ok(Ok(seen)) => seen.data.clone(),
+        _ => vec![],
+    };
+    let tbl = compress_table(&cfg, &src, &wire_seen);
+    let mut accept = vec![];
+    for e in &rc.accept {
+        if !accept.contains(e) {
+            accept.push(*e);
+        }
+    }
+    let model = format!(
+        "obs_channel_call {} (mkClient {} {} {} {} {} {}) {} {} {} {} {} {}",
+        coq_pairs(&tbl),
+        uri_parts_coq(&grpc_origin),
+        coq_opt(&rc.send, |e| e.coq().to_string()),
+        coq_list(&accept, |e| e.coq().to_string()),
+        coq_opt(&rc.max, |m| m.to_string()),
+        bsz,
+        thr,
+        uri_parts_coq(&layer_origin),
+        coq_opt(&cc.custom_ua, |u| coq_bytes(u.as_bytes())),
+        coq_bytes(tonic_ua.as_bytes()),
+        coq_hm(&mdh),
+        coq_bytes(path.as_str().as_bytes()),
+        coq_list(&src, sev_coq)
+    );
+    let target = expected_target(&rc.origin, path.as_str());
+    let (obs, oracle, wire) = match res {
+        Err(pn) => (Tr::L(vec![Tr::L(vec![Tr::n(99u8)])]), if target.is_none() { None } else { Some(format!("panic: {}", pn)) }, None),
+        Ok(Err(e)) => {
+            // the only failure the layers may produce: an endpoint origin without scheme / authority
+            let lp = layer_origin.clone().into_parts();
+            let refused = lp.scheme.is_none() || lp.authority.is_none();
+            (Tr::L(vec![Tr::L(vec![Tr::n(96u8)])]), if refused { None } else { Some(format!("call through the channel failed: {}", e)) }, None)
+        }
+        Ok(Ok(seen)) => {
+            let mut why = None;
+            // on the wire: POST, the endpoint's scheme and authority, exactly the expected target
+            if seen.parts.method != http::Method::POST {
+                why = Some(format!("method {}", seen.parts.method));
+            }
+            let pq = seen.parts.uri.path_and_query().map(|p| p.as_str()).unwrap_or("");
+            if why.is_none() && Some(pq.to_string()) != target {
+                why = Some(format!("request target {:?} on the wire, expected {:?}", pq, target));
+            }
+            if why.is_none() && (seen.parts.uri.scheme() != layer_origin.scheme() || seen.parts.uri.authority() != layer_origin.authority()) {
+                why = Some(format!("scheme/authority {:?} on the wire, endpoint origin {:?}", seen.parts.uri, layer_origin));
+            }
+            for (k, v) in [("te", "trailers"), ("content-type", "application/grpc")] {
+                let vs: Vec<_> = seen.parts.headers.get_all(k).iter().collect();
+                if why.is_none() && (vs.len() != 1 || vs[0].as_bytes() != v.as_bytes()) {
+                    why = Some(format!("header {} on the wire is {:?}", k, vs));
+                }
+            }
+            let uas: Vec<_> = seen.parts.headers.get_all("user-agent").iter().collect();
+            let want_ua = match &cc.custom_ua {
+                Some(c) => format!("{} {}", c, tonic_ua),
+                None => tonic_ua.clone(),
+            };
+            if why.is_none() && (uas.len() != 1 || uas[0].as_bytes() != want_ua.as_bytes()) {
+                why = Some(format!("user-agent on the wire {:?}, expected {:?}", uas, want_ua));
+            }
+            if why.is_none() && seen.trailers {
+                why = Some("client request carries trailers on the wire".into());
+            }
+            let announced = seen.parts.headers.get("grpc-encoding").and_then(|v| v.to_str().ok()).and_then(Enc::from_name);
+            let head = Tr::L(vec![
+                Tr::n(1u8),
+                Tr::s(seen.parts.method.as_str()),
+                Tr::n(version_n(seen.parts.version)),
+                uri_tr(&seen.parts.uri),
+                hm_tr(&seen.parts.headers),
+            ]);
+            // a failed encode resets the stream: the peer then reports an error instead (handled above)
+            (
+                Tr::L(vec![head, Tr::L(segs(&seen.data)), Tr::bool(seen.trailers), Tr::bool(false)]),
+                why,
+                Some((seen.data.clone(), announced, want.messages.clone(), Some(rc.send.is_some() as u8))),
+            )
+        }
+    };
+    out.hist("channel.endpoint", cc.endpoint.clone());
+    out.hist("channel.custom_ua", cc.custom_ua.is_some());
+    p.cases.push(PCase {
+        kind: kind.to_string(),
+        input: json!({"endpoint": cc.endpoint, "origin_override": cc.origin_override, "custom_ua": cc.custom_ua,
+                      "req": {"origin": rc.origin, "path": rc.path, "send": rc.send.map(|e| e.name()),
+                      "accept": rc.accept.iter().map(|e| e.name()).collect::<Vec<_>>(),
+                      "md": rc.md.iter().map(|(k, v)| json!([k, hex(v)])).collect::<Vec<_>>(),
+                      "max": rc.max, "bs": rc.bs.map(|(a, b)| json!([a, b])), "shape": rc.shape,
+                      "msgs": rc.msgs.iter().map(|m| msg_json(m)).collect::<Vec<_>>()}}),
+        model,
+        obs,
+        oracle,
+        nontrivial: true,
+        wire,
+    });
+}
+const ENDPOINTS: &[&str] = &["http://example.com", "http://h:1234", "https://secure.example:8443", "http://h/api", "http://[::1]:50051"];
+fn gen_channel(r: &mut Rng) -> ChanCase {
+    let mut req = gen_request(r);
+    // messages that encode: a failing request body resets the stream instead of reaching the peer
+    req.shape = if r.chance(1, 2) { 0 } else { 1 };
+    req.max = None;
+    req.msgs = (0..r.range(1, 3)).map(|_| gen_msg(r, 32768, false)).collect();
+    req.origin = match r.below(4) {
+        0 | 1 => None,
+        2 => Some("http://ignored.example/prefix".to_string()),
+        _ => Some("/v1".to_string()),
+    };
+    ChanCase {
+        endpoint: r.pick(ENDPOINTS).to_string(),
+        origin_override: if r.chance(1, 4) { Some("http://override.example:99".to_string()) } else { None },
+        custom_ua: if r.chance(1, 2) { Some(r.pick(&["Greeter 1.1", "x", "my-app/2 (linux)"]).to_string()) } else { None },
+        req,
+    }
 }
 
 // ------------------------------------------------------------------ generators
@@ -1316,14 +1749,23 @@ fn gen_request(r: &mut Rng) -> ReqCase {
     }
 }
 const ACCEPT_HEADERS: &[&str] = &["gzip", "deflate", "zstd", "identity", "gzip,deflate", "zstd, gzip", "br,deflate ,gzip", "identity,zstd", ""];
+const REQ_ENCODINGS: &[&str] = &["identity", "gzip", "deflate", "zstd", "br", "GZIP", "snappy"];
 fn gen_response(r: &mut Rng, thorough: bool) -> RespCase {
     let send = gen_accept(r);
+    let accept = gen_accept(r);
     let accept_header = if r.chance(1, 4) {
         None
     } else if !send.is_empty() && r.chance(1, 2) {
         Some(r.pick(&send).name().to_string())
     } else {
         Some(r.pick(ACCEPT_HEADERS).to_string())
+    };
+    let req_encoding = if r.chance(2, 3) {
+        None
+    } else if !accept.is_empty() && r.chance(1, 2) {
+        Some(r.pick(&accept).name().to_string())
+    } else {
+        Some(r.pick(REQ_ENCODINGS).to_string())
     };
     let bs = if r.chance(2, 3) { None } else { Some((*r.pick(&[0usize, 1, 64]), *r.pick(&[0usize, 8, 32768]))) };
     let mut max = if r.chance(1, 4) { Some(*r.pick(&[0usize, 3, 10, 1000])) } else { None };
@@ -1335,10 +1777,11 @@ fn gen_response(r: &mut Rng, thorough: bool) -> RespCase {
             let mut c = Cfg { comp: chosen_encoding(&send, &accept_header), override_disable: false, max, bs };
             let src = gen_src(r, &mut c, thorough);
             max = c.max;
-            Handler::Stream(Ok((gen_md(r), src)))
+            // a stream response carrying the override: it must be ignored
+            Handler::Stream(Ok((gen_md(r), src, r.chance(1, 5))))
         }
     };
-    RespCase { handler, send, accept_header, max, bs }
+    RespCase { handler, req_stream: r.chance(1, 2), send, accept, accept_header, req_encoding, has_msg: !r.chance(1, 8), max, bs }
 }
 
 // ------------------------------------------------------------------ corpus
@@ -1411,6 +1854,13 @@ fn corpus(p: &mut Pend, out: &mut Out) {
         let big = vec![3u8; 40_000];
         case_body(p, out, "corpus.edge", server, &plain, &[SEv::Ok(small.clone()), SEv::Ok(big.clone()), SEv::Ok(after.clone()), SEv::Ok(big.clone())]);
     }
+    // F-C03b: an origin with a query but the root path doubled the leading slash of the target
+    for o in ["http://h/?q=1", "/?q=1", "http://h?x", "https://h:1/?a=b&c=d"] {
+        for (shape, path) in [(0u8, "/pkg.Svc/Method"), (3u8, "/S/M?x=1")] {
+            let rc = ReqCase { origin: Some(o.to_string()), path: path.to_string(), send: None, accept: vec![], md: vec![], max: None, bs: None, shape, msgs: vec![small.clone()] };
+            case_request(p, out, "corpus.F-C03b", &rc);
+        }
+    }
     // heads
     for o in ORIGINS {
         for path in ["/pkg.Svc/Method", "/S/M?x=1"] {
@@ -1444,23 +1894,37 @@ fn corpus(p: &mut Pend, out: &mut Out) {
             case_request(p, out, "corpus.request", &rc);
         }
     }
+    let base = |h: Handler| RespCase { handler: h, req_stream: false, send: vec![], accept: vec![], accept_header: None, req_encoding: None, has_msg: true, max: None, bs: None };
     for h in [
         Handler::Unary(Err(st(5, "not found"))),
         Handler::Stream(Err(st(12, ""))),
         Handler::Unary(Err(StSpec { code: 3, msg: "bad".into(), details: vec![1, 2, 3], md: vec![("grpc-status".into(), b"0".to_vec()), ("content-type".into(), b"text/plain".to_vec()), ("x-a".into(), b"v".to_vec())] })),
         Handler::Unary(Ok((vec![("grpc-status".into(), b"0".to_vec()), ("x-a".into(), b"v".to_vec())], small.clone(), false))),
         Handler::Unary(Ok((vec![], vec![0xFE, 1], false))),
-        Handler::Stream(Ok((vec![], vec![SEv::Ok(small.clone()), SEv::Err(st(5, "x")), SEv::Ok(after.clone())]))),
-        Handler::Stream(Ok((vec![], vec![]))),
+        Handler::Stream(Ok((vec![], vec![SEv::Ok(small.clone()), SEv::Err(st(5, "x")), SEv::Ok(after.clone())], false))),
+        Handler::Stream(Ok((vec![], vec![], false))),
+        Handler::Stream(Ok((vec![], vec![SEv::Ok(over.clone()), SEv::Pending, SEv::Ok(small.clone())], true))),
+        Handler::Unary(Ok((vec![], over.clone(), true))),
     ] {
-        for (send, hdr) in [(vec![], None), (vec![Enc::Gzip], Some("gzip")), (vec![Enc::Zstd, Enc::Deflate], Some("deflate,zstd")), (vec![Enc::Gzip], Some("zstd"))] {
-            let rc = RespCase { handler: h.clone(), send, accept_header: hdr.map(|s: &str| s.to_string()), max: None, bs: None };
+        for (send, hdr) in [(vec![], None), (vec![Enc::Gzip], Some("gzip")), (vec![Enc::Zstd, Enc::Deflate], Some("deflate,zstd")), (vec![Enc::Gzip], Some("zstd")), (vec![Enc::Deflate], Some(" gzip ,\tdeflate"))] {
+            for req_stream in [false, true] {
+                let rc = RespCase { req_stream, send: send.clone(), accept_header: hdr.map(|s: &str| s.to_string()), ..base(h.clone()) };
+                case_response(p, out, "corpus.response", &rc);
+            }
+        }
+    }
+    // early returns: unsupported request encoding (t! / map_response(Err)), missing request message
+    for req_stream in [false, true] {
+        for h in [Handler::Unary(Ok((vec![], small.clone(), false))), Handler::Stream(Ok((vec![], vec![SEv::Ok(small.clone())], false)))] {
+            for (accept, enc) in [(vec![], "br"), (vec![], "gzip"), (vec![Enc::Gzip], "gzip"), (vec![Enc::Gzip, Enc::Zstd], "deflate"), (vec![Enc::Zstd], "identity")] {
+                let rc = RespCase { req_stream, accept, req_encoding: Some(enc.to_string()), send: vec![Enc::Gzip], accept_header: Some("gzip".into()), ..base(h.clone()) };
+                case_response(p, out, "corpus.response", &rc);
+            }
+            let rc = RespCase { req_stream, has_msg: false, ..base(h.clone()) };
             case_response(p, out, "corpus.response", &rc);
         }
     }
-    let rc = RespCase { handler: Handler::Unary(Ok((vec![], over.clone(), true))), send: vec![Enc::Gzip], accept_header: Some("gzip".into()), max: None, bs: None };
-    case_response(p, out, "corpus.response", &rc);
-    let rc = RespCase { handler: Handler::Unary(Ok((vec![], over.clone(), false))), send: vec![], accept_header: None, max: Some(50), bs: None };
+    let rc = RespCase { max: Some(50), ..base(Handler::Unary(Ok((vec![], over.clone(), false)))) };
     case_response(p, out, "corpus.response", &rc);
 }
 
@@ -1468,11 +1932,31 @@ fn replay(p: &mut Pend, out: &mut Out, file: &str) {
     let v: Value = serde_json::from_str(&std::fs::read_to_string(file).unwrap()).unwrap();
     let kind = v["kind"].as_str().unwrap_or("body");
     let inp = &v["input"];
-    if kind.ends_with("body") || kind.starts_with("corpus.F-") || kind == "corpus.edge" {
+    if kind.ends_with("body") || (kind.starts_with("corpus.F-") && kind != "corpus.F-C03b") || kind == "corpus.edge" {
         let cfg = Cfg::from_json(&inp["cfg"]);
         let src: Vec<SEv> = inp["src"].as_array().unwrap().iter().map(sev_from_json).collect();
         case_body(p, out, kind, inp["server"].as_bool().unwrap(), &cfg, &src);
-    } else if kind.ends_with("request") {
+    } else if kind.ends_with("channel") {
+        let q = &inp["req"];
+        let req = ReqCase {
+            origin: q["origin"].as_str().map(|s| s.to_string()),
+            path: q["path"].as_str().unwrap().to_string(),
+            send: q["send"].as_str().and_then(Enc::from_name),
+            accept: q["accept"].as_array().unwrap().iter().filter_map(|e| e.as_str().and_then(Enc::from_name)).collect(),
+            md: q["md"].as_array().unwrap().iter().map(|e| (e[0].as_str().unwrap().to_string(), unhex(e[1].as_str().unwrap()))).collect(),
+            max: q["max"].as_u64().map(|x| x as usize),
+            bs: q["bs"].as_array().map(|a| (a[0].as_u64().unwrap() as usize, a[1].as_u64().unwrap() as usize)),
+            shape: q["shape"].as_u64().unwrap() as u8,
+            msgs: q["msgs"].as_array().unwrap().iter().map(msg_from_json).collect(),
+        };
+        let cc = ChanCase {
+            endpoint: inp["endpoint"].as_str().unwrap().to_string(),
+            origin_override: inp["origin_override"].as_str().map(|s| s.to_string()),
+            custom_ua: inp["custom_ua"].as_str().map(|s| s.to_string()),
+            req,
+        };
+        case_channel(p, out, kind, &cc);
+    } else if kind.ends_with("request") || kind == "corpus.F-C03b" {
         let rc = ReqCase {
             origin: inp["origin"].as_str().map(|s| s.to_string()),
             path: inp["path"].as_str().unwrap().to_string(),
@@ -1495,12 +1979,16 @@ fn replay(p: &mut Pend, out: &mut Out, file: &str) {
             Handler::Unary(Err(StSpec::from_json(&h["unary_err"])))
         } else if !h["stream_ok"].is_null() {
             let u = &h["stream_ok"];
-            Handler::Stream(Ok((md(&u["md"]), u["src"].as_array().unwrap().iter().map(sev_from_json).collect())))
+            Handler::Stream(Ok((md(&u["md"]), u["src"].as_array().unwrap().iter().map(sev_from_json).collect(), u["disable"].as_bool().unwrap_or(false))))
         } else {
             Handler::Stream(Err(StSpec::from_json(&h["stream_err"])))
         };
         let rc = RespCase {
             handler,
+            req_stream: inp["req_stream"].as_bool().unwrap_or(false),
+            accept: inp["accept"].as_array().map(|a| a.iter().filter_map(|e| e.as_str().and_then(Enc::from_name)).collect()).unwrap_or_default(),
+            req_encoding: inp["req_encoding"].as_str().map(|s| s.to_string()),
+            has_msg: inp["has_msg"].as_bool().unwrap_or(true),
             send: inp["send"].as_array().unwrap().iter().filter_map(|e| e.as_str().and_then(Enc::from_name)).collect(),
             accept_header: inp["accept_header"].as_str().map(|s| s.to_string()),
             max: inp["max"].as_u64().map(|x| x as usize),
@@ -1534,12 +2022,16 @@ fn main() {
             let rc = gen_response(&mut r, a.thorough);
             case_response(&mut p, &mut out, "response", &rc);
         }
+        for _ in 0..(if a.thorough { 600 } else { 120 }) {
+            let cc = gen_channel(&mut r);
+            case_channel(&mut p, &mut out, "channel", &cc);
+        }
     }
     let dir = a.out.clone();
     p.flush(&mut out, &dir);
     out.finish(
         IMPORTS,
-        "body: EncodeBody::new_server/new_client over a scripted source (0-24 items: messages of boundary sizes around the yield threshold and the limit, codec failures, Err items; Ready/Pending patterns; identity/gzip/deflate/zstd; per-response override; BufferSettings incl. 0), polled to None and 5 more times, non-trivial = >= 2 messages or a failure after >= 1 message; request: client::Grpc over a capturing service for the four call shapes x origins x paths x metadata incl. reserved names, non-trivial = non-default origin, metadata or compression; response: server::Grpc::unary/server_streaming with Ok/Err handlers x negotiated encodings. Every body is judged by oracle/grpc_wire.py. Distinct = distinct (kind, model expression).",
+        "body: EncodeBody::new_server/new_client over a scripted source (0-24 items: messages of boundary sizes around the yield threshold and the limit, codec failures, Err items; Ready/Pending patterns; identity/gzip/deflate/zstd; per-response override; BufferSettings incl. 0), polled to None and 5 more times, non-trivial = >= 2 messages or a failure after >= 1 message; request: client::Grpc over a capturing service for the four call shapes x origins x paths x metadata incl. reserved names, non-trivial = non-default origin, metadata or compression; response: server::Grpc::{unary,client_streaming,server_streaming,streaming} with Ok/Err handlers x negotiated encodings x request grpc-encoding (supported, unsupported => early UNIMPLEMENTED) x missing request message x the per-response override (also on stream responses, where it must be ignored); channel: a real transport::Channel (AddOrigin, UserAgent, hyper h2 client) over an in-memory pipe against a bare h2 peer that records the head and body that arrive. is_end_stream() is read before the first and after every poll of every body. Every body is judged by oracle/grpc_wire.py. Distinct = distinct (kind, model expression).",
         json!({"extra_polls": EXTRA_POLLS}),
     );
 }
